@@ -49,6 +49,9 @@ class _Null:
     def assume(self, cond):
         pass
 
+    def lemma_instance(self, name, kinds, body, inst):
+        pass
+
     concrete_mode = True
 
 
